@@ -110,6 +110,17 @@ let rec in_dec h a = function
 | [] -> false
 | y :: l0 -> let s = h y a in if s then true else in_dec h a l0
 
+(** val nth : nat -> 'a1 list -> 'a1 -> 'a1 **)
+
+let rec nth n0 l default =
+  match n0 with
+  | O -> (match l with
+          | [] -> default
+          | x :: _ -> x)
+  | S m -> (match l with
+            | [] -> default
+            | _ :: t -> nth m t default)
+
 (** val nth_error : 'a1 list -> nat -> 'a1 option **)
 
 let rec nth_error l = function
@@ -156,6 +167,12 @@ let rec fold_left f l a0 =
   match l with
   | [] -> a0
   | b :: t -> fold_left f t (f a0 b)
+
+(** val fold_right : ('a2 -> 'a1 -> 'a1) -> 'a1 -> 'a2 list -> 'a1 **)
+
+let rec fold_right f a0 = function
+| [] -> a0
+| b :: t -> f b (fold_right f a0 t)
 
 (** val existsb : ('a1 -> bool) -> 'a1 list -> bool **)
 
@@ -1210,6 +1227,17 @@ type key =
 | KIdx of z
 
 type node = key list * json
+
+(** val key_eqb : key -> key -> bool **)
+
+let key_eqb a b =
+  match a with
+  | KName s -> (match b with
+                | KName t -> str_eqb s t
+                | KIdx _ -> false)
+  | KIdx i -> (match b with
+               | KName _ -> false
+               | KIdx j -> Z.eqb i j)
 
 (** val is_container : json -> bool **)
 
@@ -7115,6 +7143,280 @@ let rec hrun dflt s = function
   let (s1, x) = hstep dflt s o in
   let (s2, xs) = hrun dflt s1 r0 in (s2, (x :: xs))
 
+type cell =
+| CScalar
+| CArr of nat list
+| CObj of (str * nat) list
+
+type graph = cell list
+
+(** val cell_of : graph -> nat -> cell **)
+
+let cell_of g id =
+  nth id g CScalar
+
+(** val is_cont : cell -> bool **)
+
+let is_cont = function
+| CScalar -> false
+| _ -> true
+
+(** val kids_of : cell -> (key * nat) list **)
+
+let kids_of = function
+| CScalar -> []
+| CArr ks -> map (fun p -> ((KIdx (fst p)), (snd p))) (enum_from Z0 ks)
+| CObj ks -> map (fun p -> ((KName (fst p)), (snd p))) ks
+
+(** val gvisit :
+    graph -> nat -> key list -> nat -> (key list * nat) list result **)
+
+let rec gvisit g budget loc id =
+  match budget with
+  | O -> Err (ERecursion, None)
+  | S b ->
+    bind
+      (flat_mapM (fun kc ->
+        if is_cont (cell_of g (snd kc))
+        then gvisit g b (app loc ((fst kc) :: [])) (snd kc)
+        else Ok []) (kids_of (cell_of g id))) (fun rest0 -> Ok ((loc,
+      id) :: rest0))
+
+(** val gdesc_wild : graph -> nat -> key list list result **)
+
+let gdesc_wild g limit =
+  bind (gvisit g limit [] O) (fun vs -> Ok
+    (flat_map (fun v ->
+      map (fun kc -> app (fst v) ((fst kc) :: []))
+        (kids_of (cell_of g (snd v)))) vs))
+
+(** val take1 : z list -> z * z list **)
+
+let take1 = function
+| [] -> (Z0, [])
+| x :: r0 -> (x, r0)
+
+(** val remove_nth : nat -> 'a1 list -> 'a1 list **)
+
+let rec remove_nth n0 = function
+| [] -> []
+| x :: r0 -> (match n0 with
+              | O -> r0
+              | S n' -> x :: (remove_nth n' r0))
+
+(** val apply_perm : nat -> z -> 'a1 list -> 'a1 list **)
+
+let rec apply_perm fuel idx pool =
+  match fuel with
+  | O -> []
+  | S f ->
+    (match pool with
+     | [] -> []
+     | _ :: _ ->
+       let k = zlen pool in
+       let j = Z.to_nat (Z.modulo idx k) in
+       (match nth_error pool j with
+        | Some x -> x :: (apply_perm f (Z.div idx k) (remove_nth j pool))
+        | None -> []))
+
+(** val shuffle : z list -> 'a1 list -> 'a1 list * z list **)
+
+let shuffle script items = match items with
+| [] -> (items, script)
+| _ :: l ->
+  (match l with
+   | [] -> (items, script)
+   | _ :: _ ->
+     let (p, r0) = take1 script in ((apply_perm (length items) p items), r0))
+
+type gen_state =
+| Unstarted of node
+| Remaining of node list
+
+type pending = (gen_state * nat) list
+
+(** val gen_next :
+    z list -> gen_state -> (node option * gen_state) * z list **)
+
+let gen_next script = function
+| Unstarted n0 ->
+  let (items, script') =
+    match snd n0 with
+    | JObj _ -> shuffle script (children n0)
+    | _ -> ((children n0), script)
+  in
+  (match items with
+   | [] -> ((None, (Remaining [])), script')
+   | x :: r0 -> (((Some x), (Remaining r0)), script'))
+| Remaining ns ->
+  (match ns with
+   | [] -> ((None, (Remaining [])), script)
+   | x :: r0 -> (((Some x), (Remaining r0)), script))
+
+(** val set_nth : nat -> 'a1 -> 'a1 list -> 'a1 list **)
+
+let rec set_nth n0 x = function
+| [] -> []
+| y :: r0 -> (match n0 with
+              | O -> x :: r0
+              | S n' -> y :: (set_nth n' x r0))
+
+(** val nd_loop :
+    nat -> nat -> z list -> pending -> node list -> node list result **)
+
+let rec nd_loop fuel limit script pend acc =
+  match fuel with
+  | O -> OutOfFuel
+  | S f ->
+    (match pend with
+     | [] -> Ok (rev acc)
+     | _ :: _ ->
+       let (r0, script1) = take1 script in
+       let idx = Z.to_nat (Z.modulo r0 (zlen pend)) in
+       (match nth_error pend idx with
+        | Some p ->
+          let (g, depth) = p in
+          let (p0, script2) = gen_next script1 g in
+          let (o, g') = p0 in
+          (match o with
+           | Some nd ->
+             let pend1 = set_nth idx (g', depth) pend in
+             if is_container (snd nd)
+             then if Nat.ltb limit depth
+                  then Err (ERecursion, None)
+                  else nd_loop f limit script2
+                         (app pend1 (((Unstarted nd), (S depth)) :: []))
+                         (nd :: acc)
+             else nd_loop f limit script2 pend1 (nd :: acc)
+           | None -> nd_loop f limit script2 (remove_nth idx pend) acc)
+        | None -> Crash XIndexError))
+
+(** val count_nodes : json -> nat **)
+
+let rec count_nodes = function
+| JArr l -> S (fold_right (fun x a -> add (count_nodes x) a) O l)
+| JObj m -> S (fold_right (fun kv a -> add (count_nodes (snd kv)) a) O m)
+| _ -> S O
+
+(** val nd_visit : nat -> z list -> node -> node list result **)
+
+let nd_visit limit script root =
+  if Nat.ltb limit (S O)
+  then Err (ERecursion, None)
+  else nd_loop (add (mul (S (S O)) (count_nodes (snd root))) (S (S O))) limit
+         script (((Unstarted root), (S (S O))) :: []) (root :: [])
+
+(** val loc_eqb : key list -> key list -> bool **)
+
+let rec loc_eqb a b =
+  match a with
+  | [] -> (match b with
+           | [] -> true
+           | _ :: _ -> false)
+  | x :: a' ->
+    (match b with
+     | [] -> false
+     | y :: b' -> (&&) (key_eqb x y) (loc_eqb a' b'))
+
+(** val index_of : key list -> key list list -> nat -> nat option **)
+
+let rec index_of l ls i =
+  match ls with
+  | [] -> None
+  | x :: r0 -> if loc_eqb l x then Some i else index_of l r0 (S i)
+
+(** val parent_and_prev : key list -> key list option * key list option **)
+
+let parent_and_prev l =
+  match rev l with
+  | [] -> (None, None)
+  | k :: p ->
+    (match k with
+     | KName _ -> ((Some (rev p)), None)
+     | KIdx i ->
+       ((Some (rev p)),
+         (if Z.ltb Z0 i
+          then Some (rev ((KIdx (Z.sub i (Zpos XH))) :: p))
+          else None)))
+
+(** val before : key list list -> key list -> key list -> bool **)
+
+let before ls a b =
+  match index_of a ls O with
+  | Some i ->
+    (match index_of b ls O with
+     | Some j -> Nat.ltb i j
+     | None -> false)
+  | None -> false
+
+(** val valid_order : node -> key list list -> bool **)
+
+let valid_order root order =
+  let all = map fst (descendants (fst root) (snd root)) in
+  (&&)
+    ((&&) (Nat.eqb (length order) (length all))
+      (forallb (fun l ->
+        match index_of l order O with
+        | Some _ -> true
+        | None -> false) all))
+    (forallb (fun l ->
+      if loc_eqb l (fst root)
+      then true
+      else let (o, prev) = parent_and_prev l in
+           (match o with
+            | Some p ->
+              (&&) (before order p l)
+                (match prev with
+                 | Some q -> before order q l
+                 | None -> true)
+            | None -> true)) order)
+
+(** val queues_of : node -> node list list **)
+
+let queues_of n0 =
+  match snd n0 with
+  | JArr _ -> (match children n0 with
+               | [] -> []
+               | n1 :: l -> (n1 :: l) :: [])
+  | JObj _ -> map (fun c0 -> c0 :: []) (children n0)
+  | _ -> []
+
+(** val picks :
+    'a1 list list -> 'a1 list list -> ('a1 * 'a1 list list) list **)
+
+let rec picks pre = function
+| [] -> []
+| l :: r0 ->
+  (match l with
+   | [] -> picks pre r0
+   | x :: q ->
+     (x,
+       (app (rev pre) (app (match q with
+                            | [] -> []
+                            | _ :: _ -> q :: []) r0))) :: (picks
+                                                            ((x :: q) :: pre)
+                                                            r0))
+
+(** val all_orders_from : nat -> node list list -> node list list **)
+
+let rec all_orders_from fuel qs =
+  match fuel with
+  | O -> [] :: []
+  | S f ->
+    (match picks [] qs with
+     | [] -> [] :: []
+     | p :: l ->
+       flat_map (fun p0 ->
+         map (fun rest0 -> (fst p0) :: rest0)
+           (all_orders_from f (app (snd p0) (queues_of (fst p0))))) (p :: l))
+
+(** val all_orders : node -> node list list **)
+
+let all_orders root =
+  map (fun o -> root :: o)
+    (all_orders_from (length (descendants (fst root) (snd root)))
+      (queues_of root))
+
 (** val iota_json : z -> json list **)
 
 let iota_json len =
@@ -7574,6 +7876,84 @@ let op_history r0 =
      | None -> bad_request)
   | None -> bad_request
 
+(** val enc_loc : key list -> z list **)
+
+let enc_loc l =
+  enc_list enc_key l
+
+(** val op_nd_visit : z list -> z list **)
+
+let op_nd_visit r0 =
+  match dec_nat r0 with
+  | Some p ->
+    let (limit, r1) = p in
+    (match dec_list dec_z r1 with
+     | Some p0 ->
+       let (script, r2) = p0 in
+       (match dec_json r2 with
+        | Some p1 ->
+          let (v, _) = p1 in
+          enc_result (enc_list (fun n0 -> enc_loc (fst n0)))
+            (nd_visit limit script ([], v))
+        | None -> bad_request)
+     | None -> bad_request)
+  | None -> bad_request
+
+(** val dec_cell : cell dec **)
+
+let dec_cell = function
+| [] -> None
+| z0 :: r0 ->
+  (match z0 with
+   | Z0 -> Some (CScalar, r0)
+   | Zpos p ->
+     (match p with
+      | XI _ -> None
+      | XO p0 ->
+        (match p0 with
+         | XH ->
+           (match dec_list (dec_pair dec_str dec_nat) r0 with
+            | Some p1 -> let (ks, r') = p1 in Some ((CObj ks), r')
+            | None -> None)
+         | _ -> None)
+      | XH ->
+        (match dec_list dec_nat r0 with
+         | Some p0 -> let (ks, r') = p0 in Some ((CArr ks), r')
+         | None -> None))
+   | Zneg _ -> None)
+
+(** val op_graph : z list -> z list **)
+
+let op_graph r0 =
+  match dec_nat r0 with
+  | Some p ->
+    let (limit, r1) = p in
+    (match dec_list dec_cell r1 with
+     | Some p0 ->
+       let (g, _) = p0 in enc_result (enc_list enc_loc) (gdesc_wild g limit)
+     | None -> bad_request)
+  | None -> bad_request
+
+(** val op_valid_order : z list -> z list **)
+
+let op_valid_order r0 =
+  match dec_json r0 with
+  | Some p ->
+    let (v, r1) = p in
+    (match dec_list (dec_list dec_key) r1 with
+     | Some p0 -> let (o, _) = p0 in enc_bool (valid_order ([], v) o)
+     | None -> bad_request)
+  | None -> bad_request
+
+(** val op_all_orders : z list -> z list **)
+
+let op_all_orders r0 =
+  match dec_json r0 with
+  | Some p ->
+    let (v, _) = p in
+    enc_list (enc_list (fun n0 -> enc_loc (fst n0))) (all_orders ([], v))
+  | None -> bad_request
+
 (** val dispatch : z list -> z list **)
 
 let dispatch = function
@@ -7639,7 +8019,7 @@ let dispatch = function
                  (match p3 with
                   | XH -> op_errpos r0
                   | _ -> bad_request)
-               | XH -> bad_request)
+               | XH -> op_graph r0)
             | XH ->
               (match r0 with
                | [] -> bad_request
@@ -7671,9 +8051,17 @@ let dispatch = function
                         | _ -> bad_request)
                      | _ -> bad_request)
                   | _ -> bad_request)
-               | XO p3 -> (match p3 with
-                           | XH -> op_repr r0
-                           | _ -> bad_request)
+               | XO p3 ->
+                 (match p3 with
+                  | XI p4 ->
+                    (match p4 with
+                     | XI p5 ->
+                       (match p5 with
+                        | XH -> op_all_orders r0
+                        | _ -> bad_request)
+                     | _ -> bad_request)
+                  | XO _ -> bad_request
+                  | XH -> op_repr r0)
                | XH -> bad_request)
             | XO _ -> bad_request
             | XH -> op_str_query r0)
@@ -7717,7 +8105,8 @@ let dispatch = function
                         | _ -> bad_request)
                      | _ -> bad_request)
                   | _ -> bad_request)
-               | _ -> bad_request)
+               | XO _ -> bad_request
+               | XH -> op_nd_visit r0)
             | XH -> op_path r0)
          | XO p1 ->
            (match p1 with
@@ -7741,9 +8130,17 @@ let dispatch = function
                         | _ -> bad_request)
                      | _ -> bad_request)
                   | _ -> bad_request)
-               | XO p3 -> (match p3 with
-                           | XH -> op_float r0
-                           | _ -> bad_request)
+               | XO p3 ->
+                 (match p3 with
+                  | XI p4 ->
+                    (match p4 with
+                     | XI p5 ->
+                       (match p5 with
+                        | XH -> op_valid_order r0
+                        | _ -> bad_request)
+                     | _ -> bad_request)
+                  | XO _ -> bad_request
+                  | XH -> op_float r0)
                | XH -> op_history r0)
             | XO p2 ->
               (match p2 with
